@@ -114,6 +114,25 @@ func c12ScenarioTable() []c12Scenario {
 		return map[string]Val{"message": m, "oneof": o, "discriminator": constStr("kind")}
 	})
 	_ = discArgs
+	add("discriminator equal to the JSON name of a proto3 optional field (synthetic oneof)", A, "validateDiscriminatorNameCollision", true, func() map[string]Val {
+		a, b, k := fld("text", "string"), fld("image", "string"), fld("kind", "string")
+		k.Opt = true
+		m := cMessage("Event", k, a, b)
+		so := cOneof(m, "_kind", k)
+		so.Fields["Desc"].(*VStruct).Fields["IsSynthetic()"] = VBool{B: true}
+		o := cOneof(m, "content", a, b)
+		return map[string]Val{"message": m, "oneof": o, "discriminator": constStr("kind")}
+	})
+	add("a member of ANOTHER oneof and a proto3 optional field, neither named like the discriminator", A, "validateDiscriminatorNameCollision", false, func() map[string]Val {
+		a, b, k, z := fld("text", "string"), fld("image", "string"), fld("label", "string"), fld("zed", "string")
+		k.Opt = true
+		m := cMessage("Event", k, z, a, b)
+		so := cOneof(m, "_label", k)
+		so.Fields["Desc"].(*VStruct).Fields["IsSynthetic()"] = VBool{B: true}
+		cOneof(m, "other", z)
+		o := cOneof(m, "content", a, b)
+		return map[string]Val{"message": m, "oneof": o, "discriminator": constStr("kind")}
+	})
 	add("flattened oneof with a scalar variant", A, "validateOneofFlatten", true, func() map[string]Val {
 		a, b := fld("text", "message").msg(cMessage("T", fld("body", "string"))), fld("count", "int32")
 		m := cMessage("Event", fld("id", "string"), a, b)
